@@ -22,9 +22,9 @@ fi
 if ! (cd "$tree" && GOFLAGS=-mod=mod GOPROXY=off go build ./... ) ; then echo "MUTANT-DOES-NOT-BUILD $patch"; exit 2; fi
 for p in "$@"; do
   if [ -n "$build" ]; then
-    out=$(cd /verif && VERIF_REPO="$tree" VERIF_BUILD="$build" VERIF_WORKERS=${VERIF_WORKERS:-16} VERIF_SCALE_PCT=${VERIF_SCALE_PCT:-100} ./check $p quick 2>&1); code=$?
+    out=$(cd ${VERIF_EVAL_ROOT:-/verif} && VERIF_REPO="$tree" VERIF_BUILD="$build" VERIF_WORKERS=${VERIF_WORKERS:-16} VERIF_SCALE_PCT=${VERIF_SCALE_PCT:-100} ./check $p quick 2>&1); code=$?
   else
-    out=$(cd /verif && VERIF_SCALE_PCT=${VERIF_SCALE_PCT:-100} ./check $p quick 2>&1); code=$?
+    out=$(cd ${VERIF_EVAL_ROOT:-/verif} && VERIF_SCALE_PCT=${VERIF_SCALE_PCT:-100} ./check $p quick 2>&1); code=$?
   fi
   nv=$(echo "$out" | grep -c '^VIOLATION')
   keys=$(echo "$out" | grep '^finding' | sed 's/^finding \([^:]*\):.*/\1/' | head -4 | tr '\n' ' ')
